@@ -242,13 +242,20 @@ def ev(e, env: Dict[str, Any]):
         if isinstance(b, bool):
             b = int(b)
         op = e[1]
+
+        def i64(v):
+            # SQLite: an integer result outside the 64 bit range is computed in REAL instead
+            if isinstance(v, int) and not (-2 ** 63 <= v < 2 ** 63):
+                return float(v)
+            return v
+
         try:
             if op == "+":
-                return a + b
+                return i64(a + b)
             if op == "-":
-                return a - b
+                return i64(a - b)
             if op == "*":
-                return a * b
+                return i64(a * b)
             if op == "/":
                 if b == 0:
                     return None
@@ -257,7 +264,9 @@ def ev(e, env: Dict[str, Any]):
                     return q if (a >= 0) == (b >= 0) else -q  # SQLite: integer division truncates towards zero
                 return a / b
             if op == "%":
-                ia, ib = int(a), int(b)  # SQLite casts both operands to INTEGER
+                ia, ib = int(a), int(b)  # SQLite casts both operands to INTEGER (a REAL beyond the range goes to the nearest end of it)
+                ia = max(-2 ** 63, min(2 ** 63 - 1, ia))
+                ib = max(-2 ** 63, min(2 ** 63 - 1, ib))
                 if ib == 0:
                     return None
                 r = abs(ia) % abs(ib)
